@@ -44,7 +44,7 @@ case "${1:-}" in
     t0=$(date +%s.%N)
     if [ "$prop" = C15 ]; then
       scen=c15
-      if [ "$tier" = quick ]; then builds="1:50 3:40"; iters=200; shards=16; else builds="1:50 3:40 2:10 4:7 8:5 1:10000"; iters=2500; shards=16; fi
+      if [ "$tier" = quick ]; then builds="1:50 3:40 4:3"; iters=200; shards=16; else builds="1:50 3:40 4:3 2:10 4:7 8:5 5:4 1:10000"; iters=2500; shards=16; fi
     else
       scen=c09; builds="1:50"
       if [ "$tier" = quick ]; then iters=60; shards=16; else iters=1500; shards=16; fi
